@@ -220,18 +220,8 @@ def record(ctx, binp, tag, o, traces, ops, seed, env=None):
     return tr, summ, [j for j in js if "kind" in j]
 
 
-def stress(ctx, binp, tag, seed, rounds, env=None):
-    d = os.path.join(ctx.scratch, "st-" + tag)
-    os.makedirs(d, exist_ok=True)
-    p = ctx.run([binp, "stress", "-dir", d, "-seed", str(seed), "-rounds", str(rounds)], timeout=3000, env=env)
-    shutil.rmtree(d, ignore_errors=True)
-    if p.returncode != 0:
-        raise Infra("stress driver failed rc=%d: %s" % (p.returncode, p.stderr[-3000:]))
-    js = jlines(p)
-    summ = next((j for j in js if j.get("summary")), None)
-    if summ is None:
-        raise Infra("stress driver gave no summary")
-    return summ, [j for j in js if "kind" in j]
+def stress(ctx, binp, tag, seed, rounds, env=None, compress=False):
+    return child(ctx, binp, "stress", tag, ["-seed", str(seed), "-rounds", str(rounds)] + (["-compress"] if compress else []), env)
 
 
 def child(ctx, binp, cmd, tag, args, env=None):
@@ -264,7 +254,7 @@ def report_run(ctx, fails, tag, replay):
     for f in fails:
         if f["kind"] == "infra":
             raise Infra("%s: %s" % (tag, f["what"]))
-        sig = "%s:%s:%s:%s" % (ctx.pid, f["kind"], tag.split("-")[0], re.sub(r"\d+", "N", f["what"])[:70])
+        sig = "%s:%s:%s:%s" % (ctx.pid, f["kind"], tag.split("-")[0], re.sub(r"\d+", "N", re.sub(r"\b[0-9a-f]{12,}\b", "H", f["what"]))[:70])
         ctx.violation(sig, dict(replay, failure=f), "%s: %s" % (tag, f["what"]))
 
 
@@ -420,8 +410,19 @@ def run(ctx):
             env = {"GOMAXPROCS": str(gmp)}
             if race:
                 env.update(race_env(ctx, tag))
-            rounds = (3 if race else 6) if quick else (12 if race else 40)
+            rounds = (2 if race else 4) if quick else (10 if race else 30)
             stjobs.append((gmp, race, tag, ex.submit(stress, ctx, binr if race else binp, tag, ctx.seed + gmp, rounds, env)))
+    # the same chain with compressed UTXO records (SerializeC's shared scratch buffers behind comp_pool_mutex)
+    for gmp in ((4, 16) if quick else (1, 2, 4, 16)):
+        for race in (False, True):
+            if race and quick and gmp != 16:
+                continue
+            tag = "sc%d%s" % (gmp, "r" if race else "")
+            env = {"GOMAXPROCS": str(gmp)}
+            if race:
+                env.update(race_env(ctx, tag))
+            rounds = (2 if race else 4) if quick else (10 if race else 30)
+            stjobs.append((gmp, race, tag, ex.submit(stress, ctx, binr if race else binp, tag, ctx.seed + gmp, rounds, env, True)))
     # refusal inside commitTxs while script workers run (child processes: a crash of the child is the finding),
     # and the block writer next to BlockTrusted (outcome after a reopen)
     chjobs = []
@@ -497,15 +498,21 @@ def run(ctx):
     refs = set()
     deliveries = 0
     for gmp, race, tag, fut in stjobs:
-        summ, fails = fut.result()
-        report_run(ctx, fails, "stress-gomaxprocs%d" % gmp, {"cmd": "utxosave stress", "seed": ctx.seed + gmp, "gomaxprocs": gmp, "race": race})
+        summ, fails, crash = fut.result()
+        comp = tag.startswith("sc")
+        if crash:
+            ctx.violation("%s:crash:stress%s:%s" % (ctx.pid, "-compressed" if comp else "", crash["func"]),
+                          {"cmd": "utxosave stress" + (" -compress" if comp else ""), "seed": ctx.seed + gmp, "gomaxprocs": gmp, "race": race, "crash": crash},
+                          "stress driver%s: block processing died in %s: %s" % (" (compressed UTXO records)" if comp else "", crash["where"], crash["what"]))
+        report_run(ctx, fails, "stress%s-gomaxprocs%d" % ("compressed" if comp else "", gmp), {"cmd": "utxosave stress" + (" -compress" if comp else ""), "seed": ctx.seed + gmp, "gomaxprocs": gmp, "race": race})
         if race:
-            note_races(ctx, tag, {"cmd": "utxosave stress (race build)", "seed": ctx.seed + gmp, "gomaxprocs": gmp})
-        refs.add(json.dumps(summ["ref"], sort_keys=True))
-        deliveries += summ["deliveries"]
-        watcher_checks += summ["watcher_checks"]
-    if len(refs) != 1:
-        ctx.violation("%s:schedule:stress-reference" % ctx.pid, {"refs": sorted(refs)}, "the unperturbed reference run of the stress chain differs between GOMAXPROCS settings")
+            note_races(ctx, tag, {"cmd": "utxosave stress%s (race build)" % (" -compress" if comp else ""), "seed": ctx.seed + gmp, "gomaxprocs": gmp})
+        if summ:
+            refs.add(json.dumps(summ["ref"], sort_keys=True))
+            deliveries += summ["deliveries"]
+            watcher_checks += summ["watcher_checks"]
+    if len(refs) > 1:
+        ctx.violation("%s:schedule:stress-reference" % ctx.pid, {"refs": sorted(refs)}, "the unperturbed reference run of the stress chain differs between GOMAXPROCS settings / record formats")
     ctx.log("stress: %d deliveries over GOMAXPROCS %s, %d watcher parses" % (deliveries, list(procs), watcher_checks))
     ctx.cov["stress_deliveries"] = deliveries
     ctx.cov["watcher_checks"] = watcher_checks
